@@ -265,6 +265,61 @@ def shadow_world(lib: macrolib.Lib, rng: random.Random, order: list[int]) -> dic
     return {"vfs": v.dump(), "main": "/proj/SCRIPT/main.exps", "lookup": lookup, "variants": {nm: first_variant for nm in names}}
 
 
+def _real_compile(td: str, main: str, lookup: list[str]) -> dict:
+    """Compile on the REAL file system (no VFS installed): used to validate the stub."""
+    sut.quiet_logging()
+    from explorerscript.included_usage_map import IncludedUsageMap
+
+    c = sut.new_compiler([td + p for p in lookup])
+    with open(td + main, encoding="utf-8") as f:
+        src = f.read()
+    try:
+        c.compile(src, td + main)
+    except Exception as e:
+        return sut.raised(e)
+    inc = sorted(os.path.realpath(p)[len(os.path.realpath(td)):] for p in IncludedUsageMap(c.source_map, td + main).included_files)
+    return {"ok": model.compile_digest(c), "included_files": inc}
+
+
+def real_fs_validation(item: dict) -> dict:
+    """A generated world materialised in a real temp directory must compile to the same ops, the same
+    macro-entry file attribution and the same included files as on the VFS stub."""
+    import tempfile
+
+    rng = seeds.stream(item["run_seed"], "lib")
+    lib = macrolib.gen_lib(rng, item.get("shape"))
+    w = macrolib.gen_world(lib, seeds.stream(item["run_seed"], "world"))
+    sim = compile_once(w.vfs.dump(), w.main, w.lookup, want_usage=True)
+    res = {"validated": 0, "mismatch": []}
+    with tempfile.TemporaryDirectory(prefix="importworld-") as td:
+        td = os.path.realpath(td)
+        for p, n in w.vfs.nodes.items():
+            if n[0] == "d":
+                os.makedirs(td + p, exist_ok=True)
+        for p, n in w.vfs.nodes.items():
+            if n[0] == "f":
+                os.makedirs(os.path.dirname(td + p), exist_ok=True)
+                with open(td + p, "w", encoding="utf-8") as f:
+                    f.write(n[1].decode().replace('import "/', f'import "{td}/'))
+            elif n[0] == "l":
+                os.makedirs(os.path.dirname(td + p), exist_ok=True)
+                os.symlink(td + n[1] if n[1].startswith("/") else n[1], td + p)
+        real = forkrun(_real_compile, td, w.main, w.lookup, timeout=120)
+    res["validated"] = 1
+    if ("ok" in sim) != ("ok" in real):
+        res["mismatch"].append({"run_seed": item["run_seed"], "sim": sim.get("raised", "ok"), "real": real.get("raised", "ok")})
+    elif "ok" in sim:
+        if ops_view(sim["ok"]) != ops_view(real["ok"]):
+            res["mismatch"].append({"run_seed": item["run_seed"], "what": "ops differ"})
+        rel_sim = sorted({(str(v[0]), v[1]) for v in sim["ok"]["source_map"]["macros"]["map"].values()})
+        rel_real = sorted({(str(v[0]), v[1]) for v in real["ok"]["source_map"]["macros"]["map"].values()})
+        if rel_sim != rel_real:
+            res["mismatch"].append({"run_seed": item["run_seed"], "what": "macro entry files differ", "sim": rel_sim[:4], "real": rel_real[:4]})
+        if sorted(sim.get("included_files", [])) != real.get("included_files"):
+            res["mismatch"].append({"run_seed": item["run_seed"], "what": "included files differ", "sim": sim.get("included_files"), "real": real.get("included_files")})
+    return res
+
+
 # ---- C08 ------------------------------------------------------------------------------------------
 
 
@@ -482,6 +537,54 @@ def c10_worlds(rng: random.Random) -> list[dict]:
     return out
 
 
+def _compile_with_faults(vfs_dump: dict, main: str, lookup: list, faults: list) -> dict:
+    sut.quiet_logging()
+    vfs = Vfs.load(vfs_dump)
+    vfs.faults = [dict(f) for f in faults]
+    vfs.install()
+    with vfs.open(main, "r", encoding="utf-8") as f:
+        src = f.read()
+    for f in vfs.faults:
+        f.pop("seen", None)
+    c = sut.new_compiler(lookup)
+    _arm_budget()
+    try:
+        try:
+            c.compile(src, main)
+            out = {"ok": True}
+        except BudgetExceeded:
+            out = {"raised": "NO-ANSWER"}
+        except BaseException as e:
+            if isinstance(e, (KeyboardInterrupt, SystemExit)):
+                raise
+            out = sut.raised(e)
+    finally:
+        _disarm_budget()
+    out["fired"] = [f for f in vfs.faults if f.get("fired")]
+    return out
+
+
+def c10_io_run(item: dict) -> dict:
+    """Transient I/O errors while importing (EIO / EACCES on open, a file that vanishes between exists() and
+    open()): the property does not speak about them, so the outcome is RECORDED, not judged."""
+    import errno
+
+    w = item["world"]
+    res = {"name": w["name"], "violations": [], "configs": 0, "outcome": None, "io": {}}
+    files = sorted(p for p, n in w["vfs"]["nodes"].items() if "f" in n and p != w["main"])
+    for p in files:
+        for kind, fault in (("open-EIO", {"call": "open", "path": p, "nth": 1, "errno": errno.EIO}),
+                            ("open-EACCES", {"call": "open", "path": p, "nth": 1, "errno": errno.EACCES}),
+                            ("vanishes-after-exists", {"call": "open", "path": p, "nth": 1, "errno": errno.ENOENT})):
+            o = forkrun(_compile_with_faults, w["vfs"], w["main"], w["lookup"], [fault], timeout=120)
+            res["configs"] += 1
+            if o.get("fired"):
+                k = f"{kind}->{'ok' if 'ok' in o else o['raised']}"
+                res["io"][k] = res["io"].get(k, 0) + 1
+    res["outcome"] = "io-recorded"
+    return res
+
+
 def c10_run(item: dict) -> dict:
     """One catalogue world, compiled (i) on a fresh compiler and (ii) on a reused compiler between two valid
     programs; the valid program afterwards must equal its pristine digest."""
@@ -540,6 +643,10 @@ TIERS = {
 
 
 def _run(item):
+    if item.get("real"):
+        return real_fs_validation(item)
+    if item.get("io"):
+        return c10_io_run(item)
     return {"C05": c05_run, "C08": c08_run, "C10": c10_run}[item["prop"]](item)
 
 
@@ -551,14 +658,20 @@ def check_prop(prop: str, rep, tier: str, master: int, only_idx=None) -> None:
     if prop == "C10":
         worlds = c10_worlds(seeds.stream(master, "c10"))
         items = [{"prop": prop, "idx": i, "world": w, "tier": tier} for i, w in enumerate(worlds)]
+        items += [{"prop": prop, "idx": 10_000 + i, "world": w, "tier": tier, "io": True} for i, w in enumerate(worlds) if w["expect"] in ("accept", "answer")]
     else:
         items = [{"prop": prop, "idx": i, "run_seed": seeds.run_seed(master, ENGINE + prop, i), "tier": tier} for i in range(cfg["runs"])]
         for i, sh in enumerate(macrolib.SHAPES):  # every named shape at least once
             if i < len(items):
                 items[i]["shape"] = sh
+    if prop in ("C05", "C08"):
+        n_real = 24 if tier == "quick" else 600
+        items += [{"prop": prop, "idx": 1_000_000 + i, "run_seed": seeds.run_seed(master, ENGINE + prop + "real", i), "tier": tier, "real": True}
+                  for i in range(n_real)]
     if only_idx is not None:
         items = [it for it in items if it["idx"] in only_idx]
     results = pmap(_run, items, wall_cap=cfg["wall_cap"])
+    validated = 0
     configs = 0
     kinds: dict = {}
     distinct = set()
@@ -573,11 +686,20 @@ def check_prop(prop: str, rep, tier: str, master: int, only_idx=None) -> None:
         if st != "ok":
             rep.harness_error(f"{prop} item {it['idx']}: {r}")
             continue
+        if it.get("real"):
+            validated += r["validated"]
+            for mm in r["mismatch"]:
+                rep.harness_error(f"VFS stub disagrees with the real file system: {mm}")
+            continue
         configs += r["configs"]
         extra["vfs_calls"] += r.get("vfs_calls", 0)
         for k, v in r.get("kinds", {}).items():
             kinds[k] = kinds.get(k, 0) + v
-        if prop == "C10":
+        if prop == "C10" and it.get("io"):
+            d = extra.setdefault("io_faults_recorded_not_judged", {})
+            for a, b in r["io"].items():
+                d[a] = d.get(a, 0) + b
+        elif prop == "C10":
             distinct.add((r["name"], r["outcome"]))
             extra.setdefault("outcomes", {})
             extra["outcomes"][r["outcome"]] = extra["outcomes"].get(r["outcome"], 0) + 1
@@ -629,6 +751,7 @@ def check_prop(prop: str, rep, tier: str, master: int, only_idx=None) -> None:
         "samples": samples or [{"note": "nothing ran"}],
         "configuration_kinds": kinds,
         "items_not_run_wall_cap": skipped,
+        "traces_validated_against_impl": validated,
         "runs_per_hour": int(configs / max(wall, 1e-6) * 3600),
         "fault_kinds": {"file_absent": "by construction of catalogue worlds", "dangling_symlink": "by construction"} if prop == "C10" else {},
         "simulated_time": "no clock; logical time = VFS calls served: %d" % extra["vfs_calls"],
